@@ -68,7 +68,8 @@ def selftests(events, rng):
         c["expect"] = "reject"
         for d in c["dist"]:
             if d[1] != [0, 1] and d[1] != 0:
-                d[1] = [d[1][0] + 1, d[1][1]] if isinstance(d[1], list) else (d[1] % 3) + 1 if d[1] < 3 else 1
+                from check import corrupt_value
+                d[1] = corrupt_value(d[1]) if isinstance(d[1], list) else (d[1] % 3) + 1 if d[1] < 3 else 1
                 break
         out.append(c)
     return out
